@@ -1,6 +1,7 @@
 //! zv — bounded exhaustive checks of the 20 properties of KillingSpark/zstd-rs (see /verif/DESIGN.md).
 mod c04;
 mod c12;
+mod c13;
 mod c14;
 mod ev;
 mod meter;
@@ -53,6 +54,7 @@ fn main() {
     let code = match id.as_str() {
         "C04" => c04::main(tier, replay),
         "C12" => c12::main(tier, replay),
+        "C13" => c13::main(tier, replay),
         "C14" => c14::main(tier, replay),
         "SELFTEST" => selftest::main(),
         _ => {
